@@ -114,7 +114,9 @@ class HypercuboidPeriodicBoundaries(PeriodicBoundaries):
         float
             The position entry corrected for periodic boundaries.
         """
-        return position_entry % system_lengths[index]
+        corrected_position_entry = position_entry % system_lengths[index]
+        # For tiny negative entries, the float modulo operator rounds to the system length itself.
+        return 0.0 if corrected_position_entry == system_lengths[index] else corrected_position_entry
 
     @staticmethod
     def separation_vector(reference_position: Sequence[float],
